@@ -252,6 +252,20 @@ func Log(tag string, vals ...interface{}) {
 	Trace = append(Trace, sb.String())
 }
 
+// SetU32 stores v into the 32-bit integer variable p points to, whatever its
+// signedness (*uint32 or *int32): shims hand out such pointers as interface
+// values so that they keep compiling when the field's type changes.
+func SetU32(p interface{}, v uint32) {
+	switch q := p.(type) {
+	case *uint32:
+		*q = v
+	case *int32:
+		*q = int32(v)
+	default:
+		panic("vapi.SetU32: unsupported pointer type")
+	}
+}
+
 // ---- registry / parameters ----------------------------------------------------
 
 var registry = map[string]func(){}
